@@ -39,6 +39,7 @@ const ENV_NAMES: &[&str] = &[
     "unrelated-instances-inserted-and-destroyed-around-it",
     "after-a-failed-save-of-another-selection-on-this-thread",
     "after-a-successful-save-of-another-dom-on-this-thread",
+    "built-destroyed-and-built-again-in-the-same-dom",
 ];
 
 pub struct DetSim {
@@ -155,6 +156,19 @@ fn build_env(tree: &NodeSpec, env: u8, seed: u64) -> (WeakDom, Ref) {
             let r = dom.insert(root, b);
             let (rr, map) = dom.into_raw();
             (WeakDom::from_raw(rr, map), r)
+        }
+        11 => {
+            // A detour: the tree is built, destroyed, and built again in the same
+            // DOM. Everything the first copy held (referents apart) is free again.
+            let first: Vec<Ref> = (0..n).map(|_| Ref::new()).collect();
+            let mut next = 0;
+            let b = nested_builder(tree, &first, &mut next, &mut None);
+            let r1 = dom.insert(root, b);
+            dom.destroy(r1);
+            let mut next = 0;
+            let b = nested_builder(tree, &refs, &mut next, &mut None);
+            let r = dom.insert(root, b);
+            (dom, r)
         }
         8 => {
             // Other instances come and go in the same DOM, so the instance map
@@ -475,7 +489,10 @@ impl Engine for DetSim {
         // canonical environment
         crate::env::rewind();
         let (dom0, root0) = build_env(&t.tree, 0, t.env_seed_salt);
-        let canon0 = spec::canon_dom(&dom0);
+        // UniqueId *values* are masked in this precondition: if construction
+        // history makes the library regenerate ids (from the clock and RNG), the
+        // output is not reproducible, which is exactly what C07 is about.
+        let canon0 = spec::canon_without_uid_values(&dom0);
         let selection = |dom: &WeakDom, root: Ref| -> Vec<Ref> {
             if t.multi_root {
                 dom.get_by_ref(root).map(|i| i.children().to_vec()).unwrap_or_default()
@@ -502,7 +519,7 @@ impl Engine for DetSim {
             // yield the same logical tree (public view: shape, order, names,
             // classes, sorted properties, referents by position). If a DOM
             // operation itself misbehaves (C09-C11's business) they may not.
-            if spec::canon_dom(&dom) != canon0 {
+            if spec::canon_without_uid_values(&dom) != canon0 {
                 ctx.count(&format!("env_skipped_not_the_same_logical_tree:{}", env_name));
                 continue;
             }
@@ -604,7 +621,7 @@ impl Engine for DetSim {
     }
 
     fn distinct_rule(&self, _property: &str) -> String {
-        "One evaluation is one call of a real serializer. Each run materialises one logical tree in the canonical environment and in 2-4 environments that differ only in nondeterminism or construction history (other Ref and per-map hash streams, permuted property insertion order, node-by-node inserts, built in another DOM then transferred or cloned in, extra properties added and removed, into_raw+from_raw, unrelated instances inserted and destroyed around it, a failed save of another selection or a successful save of another DOM earlier on the same thread) and compares outcome class and bytes for binary x {LZ4, none, Zstd} and XML (default, WriteUnknown); then checks save(load(save(T))) == save(load(save(load(save(T))))). The same run indices are executed again in other worker processes under other per-process hash keys and compared by the orchestrator. distinct_nontrivial counts distinct logical trees that contain two same-class instances with different property sets, an alias or legacy property name, a SharedString or a Ref edge.".into()
+        "One evaluation is one call of a real serializer. Each run materialises one logical tree in the canonical environment and in 2-4 environments that differ only in nondeterminism or construction history (other Ref and per-map hash streams, permuted property insertion order, node-by-node inserts, built in another DOM then transferred or cloned in, extra properties added and removed, into_raw+from_raw, unrelated instances inserted and destroyed around it, a failed save of another selection or a successful save of another DOM earlier on the same thread, built-destroyed-and-built-again) and compares outcome class and bytes for binary x {LZ4, none, Zstd} and XML (default, WriteUnknown); then checks save(load(save(T))) == save(load(save(load(save(T))))). The same run indices are executed again in other worker processes under other per-process hash keys and compared by the orchestrator. distinct_nontrivial counts distinct logical trees that contain two same-class instances with different property sets, an alias or legacy property name, a SharedString or a Ref edge.".into()
     }
 
     fn assumptions(&self, _property: &str) -> Vec<String> {
